@@ -137,7 +137,7 @@ def gen_cases(ctx):
             if fm == 'eval' or rng.random() < 0.3:
                 ops.append((fm,))
             ops = sprinkle(rng, v['method'], ops)
-            cases.append({'cfg': dict(v, opts=dict(v['opts'], seed_training=st), seed=rng.randint(0, 3)), 'ops': ops, 'kind': '%s:%s:steps%d:%s' % (v['method'], c[0], n, fm), 'vi': vi})
+            cases.append({'cfg': dict(v, opts=dict(v['opts'], seed_training=st, names=rng.choice([0, 1, 1, 2])), seed=rng.randint(0, 3)), 'ops': ops, 'kind': '%s:%s:steps%d:%s' % (v['method'], c[0], n, fm), 'vi': vi})
     # random histories
     nrand = 30 if ctx.quick else 300
     for i in range(nrand):
@@ -156,7 +156,7 @@ def gen_cases(ctx):
             else:
                 ops += rng.choice(chs)[1]
         ops = sprinkle(rng, v['method'], ops)
-        cases.append({'cfg': dict(v, opts=dict(v['opts'], seed_training=rng.random() < 0.6), seed=rng.randint(0, 3)), 'ops': ops, 'kind': '%s:random' % v['method'], 'vi': vi})
+        cases.append({'cfg': dict(v, opts=dict(v['opts'], seed_training=rng.random() < 0.6, names=rng.choice([0, 1, 2])), seed=rng.randint(0, 3)), 'ops': ops, 'kind': '%s:random' % v['method'], 'vi': vi})
     return cases
 
 
@@ -300,9 +300,10 @@ def run(ctx):
             for vi, items in sorted(shards.items()):
                 for off in range(0, len(items), 24):
                     part = items[off:off + 24]
-                    seeds = sorted({c['cfg']['seed'] for c, r in part})
-                    defs = ''.join('Definition cfg_s%d : cfg := %s.\n' % (sd, coq(cfg_literal(*[x for x in part if x[0]['cfg']['seed'] == sd][0]))) for sd in seeds)
-                    exprs = ['run_case (with_training %s cfg_s%d) [%s] %s' % (coq(bool(r['fresh']['view']['training'])), c['cfg']['seed'], '; '.join(op_literal(o) for o in r['mops']), coq(Nat(r.get('noise', 1)))) for c, r in part]
+                    sk = lambda c: (c['cfg']['seed'], c['cfg']['opts'].get('names', 0))
+                    seeds = sorted({sk(c) for c, r in part})
+                    defs = ''.join('Definition cfg_s%d_n%d : cfg := %s.\n' % (sd[0], sd[1], coq(cfg_literal(*[x for x in part if sk(x[0]) == sd][0]))) for sd in seeds)
+                    exprs = ['run_case (with_training %s cfg_s%d_n%d) [%s] %s' % ((coq(bool(r['fresh']['view']['training'])),) + sk(c) + ('; '.join(op_literal(o) for o in r['mops']), coq(Nat(r.get('noise', 1))))) for c, r in part]
                     jobs.append(('cases_v%d_%d' % (vi, off), defs, exprs, part))
             from concurrent.futures import ThreadPoolExecutor
             with ThreadPoolExecutor(NPROC) as ex:
